@@ -500,6 +500,8 @@ def judge(sc, st, res, tr, cmd_metas, V, want):
                         V.bump('probe_connection_selected_by_app_id')
                 elif r == 'unknown' and not errors:
                     rep('C06', 'C06/shown-nonmatch', 'connection-unknown', 'selecting unknown connection %r gave no error' % meta.get('to'))
+            elif t == 'list' and getattr(seg, 'fault', False):
+                V.bump('listing_abandoned_by_injected_ctrl_c')     # cut short by our own Ctrl-C: its content is not judged, what follows is
             elif t == 'list':
                 judge_list(seg, meta, fstate, selected, recorded, names, t0, V, rep, opened)
             if hasattr(V, 'states'):
